@@ -17,7 +17,7 @@ CLAIMS = {
  'C06': ("stored-representation round trip only: to_dense(try_from_dense(v)) for every f32 bit pattern up to the stated dimension, representation invariants; scores/top-k/HNSW/cache not decided", "§4 C06"),
  'C07': ("snapshot header codec only: raw round trip, validate accepts exactly the v3 magic + current version, every single-bit flip in magic/version rejected; slab contents and rename atomicity not decided", "§4 C07"),
  'C09': ("row-lock kernel only (the clauses 'no other transaction can modify a locked row' and 'locks disappear when the owner ends or times out' at the lock table): RowLockManager try_lock refuses exactly live foreign locks and grants all-or-nothing, release/expiry remove exactly the owner's/expired entries, is_locked/lock_holder are truthful, the reverse-index invariant is preserved - from every table of the bounded shape; all-or-nothing commit/rollback over rows and indexes, TransactionManager and the engine's locking discipline are not decided", "§4 C09"),
- 'C10': ("RaftWal: crash at every byte of the last record, reopen, append, restart: no acknowledged term/vote/log record is lost; recovery classification returns the last persisted term and vote; node level with the real WAL behind the real handlers: after handle_request_vote/start_election/handle_append_entries the term, vote and log rebuilt by the real from_wal equal the in-memory ones, and an entry accepted by propose / propose_codebook_replace on a leader is in the rebuilt log (crash is the only fault)", "§4 C10"),
+ 'C10': ("RaftWal: crash at every byte of the last record, reopen, append, restart: no acknowledged term/vote/log record is lost; recovery classification returns the last persisted term and vote; node level with the real WAL behind the real handlers: after handle_request_vote/start_election/handle_append_entries the term, vote and log rebuilt by the real from_wal equal the in-memory ones, and an entry accepted by propose / propose_codebook_replace on a leader is in the rebuilt log (crash is the only fault); one known finding: an installed snapshot is not in the log file", "§4 C10"),
  'C12': ("sequential lock-table and wait-graph bookkeeping from an arbitrary table satisfying the representation invariant: conflicts refused with nothing acquired, grants all-or-nothing under a fresh handle, release/expiry leave nothing behind, invariant preserved, forward/reverse wait edges stay mirror images, detect_cycles reports a cycle exactly when the recorded edges of a graph on up to 3 transactions contain one, would_create_cycle is exact, victim is a member of the cycle; thread interleavings and larger graphs are not decided", "§4 C12"),
  'C13': ("TxWal: same crash obligations as C10; TxRecoveryState::from_entries never resurrects a completed transaction, returns prepared ones with their votes, forgets preparing ones and lists orphaned lock handles exactly; coordinator commit()/abort() with the real TxWal: a crash at any byte of the call recovers either the logged decision or the still-prepared transaction, never the opposite outcome", "§4 C13"),
  'C15': ("both real Pratt loops (ExprParser and Parser) executed on symbolic token streams: for every pair of infix operators a OP1 b OP2 c groups per the documented precedence levels and left associativity, prefix operators bind tighter than every infix operator, token->operator map is injective; lexer/totality/depth/text-vs-engine equivalence not decided", "§4 C15"),
